@@ -415,3 +415,111 @@ CHECKS.update({
                      "random sprites with non-square frame x layer counts; the three cel routes, single-visible-layer frames and tilemap images "
                      "compared by TLC"), "model_checking"),
 })
+
+
+# ------------------------------------------------------------------------------------------
+# C03 / C17: blend vectors
+BLEND_C03 = {"blend_reference", "blend_shape"}
+BLEND_C17 = {"blend_law_alpha", "blend_law_transparent_source", "blend_law_transparent_backdrop", "blend_law_opaque_normal",
+             "blend_panic", "blend_shape"}
+
+
+def blend_stage(rep, work, binpath, stratum, seed, n, kinds, modes=None, shards=12):
+    prefix = work.path(f"bl-{stratum}")
+    cmd = [binpath, "blend", "--stratum", stratum, "--seed", str(seed), "--n", str(n), "--out", prefix, "--shards", str(shards)]
+    if modes:
+        cmd += ["--modes", ",".join(map(str, modes))]
+    t0 = time.time()
+    r = subprocess.run(cmd, capture_output=True, text=True)
+    if r.returncode != 0:
+        raise ToolError(f"blend driver failed: {r.stderr[-500:]}")
+    info = json.loads(r.stdout.strip().splitlines()[-1])
+    traces = [f"{prefix}.{i}" for i in range(shards) if os.path.getsize(f"{prefix}.{i}") > 0]
+    if stratum == "chan" and not rep.cov["samples"]:
+        with open(traces[0]) as f:
+            e = json.loads(f.readline())
+            rep.sample({"m": e["m"], "lop": e["lop"], "cop": e["cop"], "B": e["B"][:2], "S": e["S"][:2], "R": e["R"][:2]})
+    res = validate_traces("Trace_Blend", traces, jvms=shards, xmx="2g")
+    rep.add_model(res["generated"], res["distinct"])
+    rep.cov["traces_validated_against_impl"] += info["events"]
+    rep.cov["evaluations"] += info["vectors"]
+    rep.cov["distinct_nontrivial"] += res["outcomes"][1]
+    for e in res["errors"]:
+        rep.error(f"blend stage {stratum}: {e}")
+    other = 0
+    for rej in res["rejects"]:
+        sig = sig_of_reject(rej)
+        if sig.split(":")[0] not in kinds:
+            other += 1
+            continue
+        rep.violation(sig, re.sub(r"\s+", " ", rej)[:900], {"property": rep.pid, "stage": f"blend:{stratum}", "seed": seed, "n": n, "tlc": rej,
+                                                             "blend": {"stratum": stratum, "modes": modes}})
+    rep.stage(f"blend:{stratum}", vectors=info["vectors"], events=info["events"], checked_by_tlc=res["outcomes"][0],
+              both_visible=res["outcomes"][1], tlc_s=round(res["wall"], 1), rejects=len(res["rejects"]), other_property_rejects=other)
+    log(f"[{rep.pid}] blend {stratum}: {info['vectors']} vectors, tlc {res['wall']:.1f}s, rejects {len(res['rejects'])} (other: {other})")
+    for t in traces:
+        os.remove(t)
+    if res["outcomes"][0] != info["vectors"]:
+        rep.error(f"blend stage {stratum}: TLC evaluated {res['outcomes'][0]} of {info['vectors']} vectors")
+
+
+def blend_plan(tier):
+    if tier == "quick":
+        return [("chan", 1), ("lattice", 60000), ("random", 60000), ("hsl", 40000), ("laws", 40000)]
+    return [("chan", 1), ("chanalpha", 1), ("opacity", 1), ("lattice", 1500000), ("random", 3000000), ("hsl", 1000000), ("laws", 500000)]
+
+
+def c03(rep, work, tier, seed):
+    b = build("relchk")
+    for stratum, n in blend_plan(tier):
+        if stratum == "laws":
+            continue
+        modes = [0, 3, 12] if stratum == "opacity" else None
+        blend_stage(rep, work, b, stratum, seed, n, BLEND_C03, modes=modes)
+    rep.assumptions.append("soft light / hue / saturation / colour / luminosity: the binary64 kernel is a TLC Java module override (AseFloat.java), "
+                           "i.e. a second transcription of Aseprite's C++; the 14 integer modes, alpha, opacity and the wrapper are pure TLA+")
+    rep.final = dict(rule="vectors (mode, backdrop, source, layer opacity, cel opacity) rendered through Frame::image and compared by TLC with AseBlend.Blend: "
+                          "complete 2^16 channel tables of 14 modes at full alpha; boundary lattice; seeded random vectors over the full space; HSL tie cases; "
+                          "(thorough: 2^16 x 12x12 alpha grid, all 2^16 opacity pairs). non-trivial = both pixels visible and opacity product > 0",
+                     trusted=TRUSTED + ["AseFloat.java override for the five binary64 modes"],
+                     explanation="exploration with the TLA+ blend algebra as the executable reference; not exhaustive over 19 x 2^80")
+
+
+def c17(rep, work, tier, seed):
+    b = build("relchk")
+    lattice = "{0, 128, 255}" if tier == "quick" else "{0, 1, 128, 255}"
+    mc_run(rep, work, "MC_Blend", {"Lattice": lattice, "Ops": "{0, 1, 128, 255}"},
+           ["AlphaLawInv", "NormalAlphaInv", "ProductInv", "ChannelInv", "LerpInv", "SkeletonInv", "LatticeLawsInv"], workers=14)
+    rep.cov["model_evaluations"] = 256 * 65536 * 3 + 65536 * 15
+    for stratum, n in blend_plan(tier):
+        if stratum in ("chanalpha",) and tier == "quick":
+            continue
+        modes = [0, 3, 12, 17] if stratum == "opacity" else None
+        blend_stage(rep, work, b, stratum, seed + 17, n, BLEND_C17, modes=modes)
+    rep.final = dict(rule="on the model: alpha law over all 2^24 (Ba,Sa,op), opacity product over all 2^16 pairs, channel range over all 2^16 (b,s) of 14 "
+                          "channel functions, the four laws on a boundary lattice for all 19 modes (TLC, exhaustive within those sub-spaces); on the "
+                          "implementation: the same laws checked by TLC directly on rendered vectors (overflow checks and debug assertions on)",
+                     trusted=TRUSTED, exhaustive=False)
+
+
+CHECKS.update({"C03": (c03, "exploration"), "C17": (c17, "model_checking")})
+
+
+def c07(rep, work, tier, seed):
+    b = build("dev")
+    cases = work.path("g3v.ndjson")
+    n, v = (120, 12) if tier == "quick" else (2500, 24)
+    gen(b, cases, "default", seed, n, variants=v)
+    res = batched_stage(rep, work, b, cases, "g3-variants", batch=20000)
+    need_ok(rep, res, "g3-variants", 0.95)
+    cs = first_cases(cases, 3, 8000)
+    rep.sample({"base": cs[0].get("id"), "variant": cs[1].get("id"), "choice": cs[1].get("meta", {}).get("choice")})
+    rep.cov["distinct_nontrivial"] = res["outcomes"][0]
+    rep.final = dict(rule=f"{n} random sprites x {v} encodings each (one neutral choice flipped at a time, then all at once: cel storage raw/zlib level/stored "
+                          "blocks, count field old/new/both/0xFFFF, ignorable chunks at every position, unused field values, zero pixel-ratio component, "
+                          "chunk padding, trailing bytes, redundant legacy palette, cel chunk order); every encoding must yield the observation the "
+                          "specification derives from the sprite (which does not mention the choices), hence equal observations",
+                     trusted=TRUSTED)
+
+
+CHECKS["C07"] = (c07, "model_checking")
